@@ -22,6 +22,7 @@
        abstract row lists, where the inner join is not modelled - no topic at all) is SKIPPED, it is not an error
        (C18_db3_skipped_rows, C18_db3_ex_unknown_topic_no_error);
      - every failure has the error class EOther; there is no other outcome (C18_db3_error_class). *)
+From Mcap Require ConstsTie LayoutTie. (* regenerated ties to /repo's source that this property's model relies on *)
 From Coq Require Import List NArith ZArith Bool.
 From Coq.Strings Require Import Byte.
 From Mcap Require Import Bytes GoSem Records Writer WriterFactsB LexSpec ComposeFacts Db3 Db3Facts.
